@@ -176,6 +176,9 @@ val release_old : obj option -> state -> result
 
 val step : orc -> instr -> state -> result
 
+val loop_on :
+  orc -> nat -> nat -> nat -> (state -> result) -> nat -> state -> result
+
 val exec : orc -> nat -> code -> state -> result
 
 val sweep :
